@@ -260,7 +260,16 @@ def run_case(ctx, case):
         i = next((i for i, (x, y) in enumerate(zip(la, lb)) if x != y), min(len(la), len(lb)))
         ctxline = next((la[j] for j in range(i, -1, -1) if re.match(r"^[A-Z_]+_RAW", la[j])), "?") if la else "?"
         opt = (la[i].split() or ["?"])[0] if i < len(la) else "<length>"
-        bad("not-a-fixed-point/%s/%s" % (ctxline.split()[0], opt), "dump->read->dump is not a fixed point after one cycle: line %d %r vs %r (block %s)" % (
+        unsync_fp = ctxline.split()[0] == "EXCHANGE_RAW" and bool(_unsynchronised_related(d1))
+        if not unsync_fp and ctxline.split()[0] == "EXCHANGE_RAW" and re.search(r"(?m)^\s+-(rate_name|phase_name)\s+\S", d1) and i < len(la) and i < len(lb):
+            # an exchanger tied to a kinetic reactant or a mineral is rescaled to proportion x moles by every reader: the totals move in the last printed digit per cycle
+            wa, wb = la[i].split(), lb[i].split()
+            try:
+                if len(wa) == 2 and len(wb) == 2 and wa[0] == wb[0] and abs(float(wa[1]) - float(wb[1])) <= 1e-12 * max(abs(float(wa[1])), abs(float(wb[1]))):
+                    opt = "related-exchanger-last-digit"
+            except ValueError:
+                pass
+        bad("not-a-fixed-point/%s/%s" % (ctxline.split()[0], "unsynchronised-related-exchanger" if unsync_fp else opt), "dump->read->dump is not a fixed point after one cycle: line %d %r vs %r (block %s)" % (
             i, la[i] if i < len(la) else None, lb[i] if i < len(lb) else None, ctxline))
     # ---------------------------------------------------------------- follow-up equality
     probe = {}
@@ -303,7 +312,9 @@ def run_case(ctx, case):
                     # numeric differences only, the largest of them at most 1e-3 relative: the follow-up depends that much on where the solver starts in this state
                     # (open known finding, rare); a lost or corrupted field shows as a larger or a structural difference and is reported
                     worst_rel = max(d_[1] for d_ in diffs)
-                    if worst_rel <= 1e-3:
+                    if who == "dump-restored" and _unsynchronised_related(d1):
+                        sub = "/unsynchronised-related-exchanger"      # the original carries an exchanger that is out of step with its kinetic reactant / mineral; reading the dump puts it in step (open known finding)
+                    elif worst_rel <= 1e-3:
                         sub = "/small"
                     elif "SOLID_SOLUTIONS_RAW" in d1:
                         sub = "/solid-solution-state"      # with a solid solution present even an exact in-memory copy can end elsewhere than its original (open known finding, cf. C02): no numeric oracle there
@@ -384,6 +395,66 @@ def run_case(ctx, case):
         k, w = findings[0]
         return Result(VIOLATED, key=k, what=w, findings=findings[1:], sigs=sigs, sample=sample, stats=stats)
     return Result(HELD, sigs=sigs, sample=sample, stats=stats)
+
+
+def _unsynchronised_related(dump):
+    """numbers of EXCHANGE_RAW blocks in which a component tied to a kinetic reactant or a mineral does not hold proportion x moles of its partner
+    (a batch reaction without SAVE updates a kinetic reactant in place but leaves the exchanger as it was: the state itself is out of step, and the first
+    thing a reader of the dump does is to put it back in step).  Components without -phase_proportion are not judged here."""
+    from props import c14
+    blocks = c14.parse_dump(dump)
+    out = set()
+    for (kind, n), lines in blocks.items():
+        if kind != "exchange":
+            continue
+        comp = None
+        comps = []
+        intot = False
+        for ln in lines:
+            w = ln.split()
+            if w[0] == "-component":
+                comp = {"tot": {}}
+                comps.append(comp)
+                intot = False
+            elif comp is not None and w[0].startswith("-"):
+                intot = w[0] == "-totals"
+                if len(w) > 1:
+                    comp[w[0]] = w[1]
+            elif comp is not None and intot and len(w) >= 2:
+                try:
+                    comp["tot"][w[0]] = float(w[1])
+                except ValueError:
+                    pass
+        for comp in comps:
+            partner = None
+            if comp.get("-rate_name") and "-phase_proportion" in comp:
+                kl = blocks.get(("kinetics", n)) or []
+                cur = None
+                for ln in kl:
+                    w = ln.split()
+                    if w[0] == "-component":
+                        cur = w[1] if len(w) > 1 else None
+                    elif w[0] == "-m" and cur and cur.lower() == comp["-rate_name"].lower() and len(w) > 1:
+                        partner = float(w[1])
+            elif comp.get("-phase_name") and "-phase_proportion" in comp:
+                pl = blocks.get(("equilibrium_phases", n)) or []
+                cur = None
+                for ln in pl:
+                    w = ln.split()
+                    if w[0] == "-component":
+                        cur = w[1] if len(w) > 1 else None
+                    elif w[0] == "-moles" and cur and cur.lower() == comp["-phase_name"].lower() and len(w) > 1:
+                        partner = float(w[1])
+            if partner is None:
+                continue
+            try:
+                want = float(comp["-phase_proportion"]) * partner
+            except ValueError:
+                continue
+            have = comp["tot"].get("X")
+            if have is not None and abs(have - want) > 1e-6 * max(abs(have), abs(want), 1e-30):
+                out.add(n)
+    return out
 
 
 def _parse_solutions(dump):
